@@ -163,9 +163,23 @@ func (fr *Frame) pureCall(st *State, fn *ssa.Function, full string, args []Val) 
 		if res.Len() > 1 {
 			name += "." + itoa(i)
 		}
+		_, seen := ex.ctx.declared[name]
 		v := ex.ctx.UF(name, s, ts...)
 		if len(ts) == 0 {
 			v = ex.ctx.Const(name+".c", s)
+		}
+		if !seen && full == "bytes.Equal" && len(ts) == 6 {
+			// bytes.Equal is reflexive, and equal byte strings have equal length
+			ex.trusted["bytes.Equal: uninterpreted, reflexive, implies equal lengths"] = true
+			cs := ts[0].Sort
+			c1, o1, l1 := V("c1!ax", cs), V("o1!ax", SInt), V("l1!ax", SInt)
+			c2, o2, l2 := V("c2!ax", cs), V("o2!ax", SInt), V("l2!ax", SInt)
+			refl := App(name, SBool, c1, o1, l1, c1, o1, l1)
+			ex.axioms = append(ex.axioms, &Term{Op: "forall", Sort: SBool, Pat: []*Term{refl}, Bound: []Bound{{"c1!ax", cs}, {"o1!ax", SInt}, {"l1!ax", SInt}}, Args: []*Term{refl}})
+			eq := App(name, SBool, c1, o1, l1, c2, o2, l2)
+			ex.axioms = append(ex.axioms, &Term{Op: "forall", Sort: SBool, Pat: []*Term{eq},
+				Bound: []Bound{{"c1!ax", cs}, {"o1!ax", SInt}, {"l1!ax", SInt}, {"c2!ax", cs}, {"o2!ax", SInt}, {"l2!ax", SInt}},
+				Args:  []*Term{Implies(eq, Eq(l1, l2))}})
 		}
 		if ex.ghost == 0 {
 			ex.assume(st, ex.typeFacts(v, t))
@@ -352,7 +366,7 @@ func (fr *Frame) atomicOp(st *State, op string, args []Val, fn *ssa.Function, po
 	}
 	switch op {
 	case "load":
-		return Val{T: cur}
+		return Val{T: ex.ghostTyped(cur, vt)}
 	case "add":
 		nv := ex.wrapTo(Add(cur, args[1].T), vt)
 		if _, hi, ok := intRange(vt); ok && isUnsigned(vt) && rely != "" && ex.ghost == 0 {
